@@ -72,15 +72,30 @@ SweepCases == UNION {{[s |-> name, D |-> D, style |-> st, padAt |-> {1, 2}, ps |
                         : D \in {{}, 1..NDelims(MainPieces(name))}, st \in {"sp", "none"}} : name \in {"print2", "ifelse"}}
               \cup UNION {{[s |-> name, D |-> D, style |-> st, padAt |-> {1, 2}, ps |-> "sweep"]
                         : D \in {{}, 1..NDelims(MainPieces(name))}, st \in {"sp", "none"}} : name \in {"print2", "ifelse"}}
+\* history: a template whose first dash comes late (40 plain print tags, then a dashed one) is parsed first; then a fully dashed
+\* template of about 3 KB (below the large-template threshold, beyond ten times the token buffer of the tokenizer that has just
+\* been used).  The runs are a sequence: they are made in this order in one process.
+LatePieces == [i \in 1..40 |-> W("{{ x }}")] \o <<C(<<32, 10>>), W("{{- x -}}"), C(<<32, 10>>)>>
+LateOut == [i \in 1..41 |-> 51]
+HistRuns(c) ==
+    <<[label |-> "late", tp |-> ("main" :> LatePieces), xcalls |-> [id \in {} |-> 0], writer |-> "", out |-> LateOut,
+       pads |-> [i \in 1..MaxSym |-> [len |-> 0, style |-> "p", total |-> 0]]],
+      [label |-> "early", tp |-> SourcesOf(c, FALSE), xcalls |-> [id \in {} |-> 0], writer |-> "",
+       pads |-> [i \in 1..MaxSym |-> IF i = 1 THEN [len |-> 3000, style |-> "p", total |-> 0] ELSE [len |-> 0, style |-> "p", total |-> 0]]],
+      [label |-> "late2", tp |-> ("main" :> LatePieces), xcalls |-> [id \in {} |-> 0], writer |-> "", out |-> LateOut,
+       pads |-> [i \in 1..MaxSym |-> [len |-> 0, style |-> "p", total |-> 0]]],
+      [label |-> "early2", tp |-> SourcesOf(c, FALSE), xcalls |-> [id \in {} |-> 0], writer |-> "",
+       pads |-> [i \in 1..MaxSym |-> IF i = 1 THEN [len |-> 3600, style |-> "b", total |-> 0] ELSE [len |-> 0, style |-> "p", total |-> 0]]]>>
+HistCases == UNION {{[s |-> name, D |-> 1..NDelims(MainPieces(name)), style |-> st, padAt |-> {1}, ps |-> "hist"] : st \in {"sp", "mix"}} : name \in {"print2", "ifelse", "forloop"}}
 CaseOf14(c) ==
     [prop |-> IF Only = "dashsweep" THEN "C13" ELSE "C14", key |-> ToJson(c),
      tags |-> {"s:" \o c.s, "style:" \o c.style, "ndash:" \o ToString(Cardinality(c.D)), "pad:" \o c.ps,
                "npads:" \o ToString(Cardinality(c.padAt))},
      entry |-> "main", ctx |-> Ctx,
-     runs |-> IF c.ps = "sweep" THEN SweepRuns(c) ELSE IF c.ps = "sweepsmall" THEN SmallSweepRuns(c) ELSE Runs14(c),
+     runs |-> IF c.ps = "sweep" THEN SweepRuns(c) ELSE IF c.ps = "sweepsmall" THEN SmallSweepRuns(c) ELSE IF c.ps = "hist" THEN HistRuns(c) ELSE Runs14(c),
      expect |-> [ok |-> TRUE, out |-> Expected(c), err |-> "", calls |-> [id \in {} |-> 0]]]
 
-Init14 == cs \in IF Only = "dashsweep" THEN {c \in SweepCases : c.D # {}} ELSE Cases14 \cup SweepCases
+Init14 == cs \in IF Only = "dashsweep" THEN {c \in SweepCases \cup HistCases : c.D # {}} ELSE Cases14 \cup SweepCases \cup HistCases
 Spec14 == Init14 /\ [][UNCHANGED cs]_cs
 Emit14 == PrintT(ToJson(CaseOf14(cs)))
 
